@@ -884,60 +884,9 @@ def _is_f2(clause: str, case: Dict[str, Any]) -> bool:
     return sorted(sections) != sorted(components(len(arcs), pairs))
 
 
-def _pinned_offers_deviate(case: Dict[str, Any]) -> bool:
-    """Model of the PINNED Record.add_region on arcs: the held regions are kept sorted
-    (origin-spanning first, then by start, longest first); an offer is compared with them in that
-    order and the scan STOPS at the first held region the offer sorts before, so held regions
-    further on are never tested for overlap.  True if, somewhere in the sequence of offers, the
-    model accepts an offer that shares a base with a held region (or refuses one that does not).
-    Used ONLY to delimit the known-finding class."""
-    length = case["L"]
-    arcs = case["subs"]
-    masks = [arc_mask(arc, length) for arc in arcs]
-
-    def key(index: int) -> Tuple[int, int]:
-        start, end = arcs[index]
-        if start >= end:
-            return (start - length, -(length - start + end))
-        return (start, -(end - start))
-
-    def before(a: int, b: int) -> bool:          # CDSCollection.__lt__
-        if spans_origin(arcs[a]) == spans_origin(arcs[b]) and masks[b] & ~masks[a] == 0 and masks[a] != masks[b]:
-            return True
-        return key(a) < key(b)
-
-    held: List[int] = []
-    for offer in case["order"]:
-        should_refuse = any(masks[h] & masks[offer] for h in held)
-        refused = False
-        position = 0
-        for place, existing in enumerate(held):
-            if masks[existing] & masks[offer]:
-                refused = True
-                break
-            if before(offer, existing):
-                position = place
-                break
-            position = place + 1
-        if refused != should_refuse:
-            return True
-        if not refused:
-            held.insert(position, offer)
-    return False
-
-
-def _is_f3(clause: str, case: Dict[str, Any]) -> bool:
-    """add_region stops scanning the held regions at the first one the new region sorts before:
-    an offer that sorts early (an origin-spanning region, which sorts first) and does not overlap
-    the first held region is accepted although it shares a base with a later held region."""
-    if case.get("fn") != "offers" or _plain(clause) not in ("offer-refused-iff-overlaps-held", "regions-disjoint"):
-        return False
-    return _pinned_offers_deviate(case)
-
-
-# C06-F1 (single first/last fix-up of the sweep) is repaired in /repo and has no class any more:
-# a recurrence is reported as an unclassified failure.
+# C06-F1 (single first/last fix-up of the sweep) and C06-F3 (add_region stopped scanning the held
+# regions early) are repaired in /repo and have no class any more: a recurrence is reported as an
+# unclassified failure.
 FINDING_CLASSES = {
     "C06-F2": _is_f2,
-    "C06-F3": _is_f3,
 }
